@@ -268,7 +268,7 @@ func newT3World(key *rsa.PrivateKey, seed int64, origins map[string]string) *t3W
 			}
 			continue
 		}
-		sk, _ := ecdsa.CreateKey(elliptic.P384(), p384Scalar(seed, "indexkey-"+ik))
+		sk, _ := rawKey(elliptic.P384(), p384Scalar(seed, "indexkey-"+ik))
 		w.issuer.AddOriginWithIndexKey(name, sk)
 	}
 	return w
@@ -366,4 +366,12 @@ func authInput(tok tokens.Token) []byte {
 func sha256Sum(b []byte) []byte {
 	h := sha256.Sum256(b)
 	return h[:]
+}
+
+// rawKey builds an ECDSA key object of the fork from raw scalar bytes WITHOUT calling the library: D is the integer the
+// bytes encode (not reduced - the blinding factor is a hash of D's bytes, so b and b + N are different blind keys), the
+// public point is computed by crypto/elliptic. The harness's own expectations must not move when ecdsa.CreateKey does.
+func rawKey(curve elliptic.Curve, b []byte) (*ecdsa.PrivateKey, error) {
+	x, y := curve.ScalarBaseMult(b)
+	return &ecdsa.PrivateKey{PublicKey: ecdsa.PublicKey{Curve: curve, X: x, Y: y}, D: new(big.Int).SetBytes(b)}, nil
 }
